@@ -62,11 +62,15 @@ def _wrap_scan():
         except TypeError:
             return orig(*args, **kwargs)
         HUB.acc.count("scan_calls")
+        from . import monitors_trace
+
         try:
             ev = orig(*args, **kwargs)
         except Exception as e:  # noqa: BLE001
             HUB.scan_events.append(ScanEvent(a, "error", type(e).__name__, str(e)))
+            monitors_trace.judge_entry_point(a, "error", type(e).__name__)
             raise
+        monitors_trace.judge_entry_point(a, "ok", None)
         se = ScanEvent(a, "ok", evaluable=ev)
         se.state = graph_state(ev)
         if se.state is not None:
@@ -212,6 +216,9 @@ def _wrap_layer_rule_assert():
         try:
             if cfg is not None and ev.truth is not None and "C05" in HUB.judges:
                 _judge_layer_rule(ev, rlayer)
+            from . import monitors_trace
+
+            monitors_trace.judge_layer_rule_eval(self, ev)
         except Exception as e:  # noqa: BLE001
             HUB.acc.mark_inconclusive(f"judge_layer_rule crashed: {type(e).__name__}: {e}")
         if exc is not None:
@@ -391,6 +398,9 @@ def _wrap_diagram_rule():
         try:
             if "C07" in HUB.judges and ev.truth is not None and cfg["file"]:
                 _judge_diagram_rule(ev)
+            from . import monitors_trace
+
+            monitors_trace.judge_diagram_eval(self, ev)
         except Exception as e:  # noqa: BLE001
             HUB.acc.mark_inconclusive(f"judge_diagram_rule crashed: {type(e).__name__}: {e}")
         if exc is not None:
@@ -487,6 +497,136 @@ def _judge_diagram_rule(ev) -> None:
 
 
 # ---------------------------------------------------------------------------------
+# drawing backend (C17): the interceptor is the observation point and draws nothing
+# ---------------------------------------------------------------------------------
+
+
+def r_label(module: str, aliases: dict) -> str:
+    """R-LABEL: alias of the most specific aliased module that equals the name or is a
+    whole-component prefix of it replaces that name part; otherwise the full name."""
+    from .refmodel.names import is_ancestor
+
+    best = None
+    for a in aliases:
+        if a == module or is_ancestor(a, module):
+            if best is None or len(a.split(".")) > len(best.split(".")):
+                best = a
+    if best is None:
+        return module
+    return aliases[best] + module[len(best):]
+
+
+def _wrap_draw():
+    import pytestarch.eval_structure.networkxgraph as nxg
+
+    orig_draw = nxg.draw_networkx
+
+    def draw_networkx(G, *args, **kwargs):
+        if not HUB.active:
+            return orig_draw(G, *args, **kwargs)
+        HUB.draw_calls.append({"nodes": frozenset(G.nodes), "args": args, "kwargs": dict(kwargs)})
+        HUB.acc.count("draw_backend_calls")
+        return None
+
+    draw_networkx._pta_orig = orig_draw
+    nxg.draw_networkx = draw_networkx
+
+    from pytestarch.eval_structure.evaluable_graph import EvaluableArchitectureGraph
+
+    orig_vis = EvaluableArchitectureGraph.__dict__["visualize"]
+
+    @functools.wraps(orig_vis)
+    def visualize(self, **kwargs):
+        if not HUB.active:
+            return orig_vis(self, **kwargs)
+        given = dict(kwargs)
+        state = graph_state(self)
+        n0 = len(HUB.draw_calls)
+        exc = None
+        try:
+            orig_vis(self, **kwargs)
+        except Exception as e:  # noqa: BLE001
+            exc = e
+        try:
+            if "C17" in HUB.judges and state is not None:
+                _judge_visualize(given, state, HUB.draw_calls[n0:], exc)
+        except Exception as e:  # noqa: BLE001
+            HUB.acc.mark_inconclusive(f"judge_visualize crashed: {type(e).__name__}: {e}")
+        if exc is not None:
+            raise exc
+
+    visualize._pta_orig = orig_vis
+    EvaluableArchitectureGraph.visualize = visualize
+
+
+def _judge_visualize(given, state, calls, exc) -> None:
+    nodes = state[0]
+    aliases = given.get("aliases")
+    HUB.acc.count("visualize_calls")
+    w = {"given": {k: (v if isinstance(v, (str, int, float, bool, dict, type(None))) else repr(v)) for k, v in given.items()}, "nodes": sorted(nodes)}
+    unknown = sorted(a for a in (aliases or {}) if a not in nodes)
+    if unknown:
+        HUB.acc.count("c17_unknown_alias_cases")
+        if exc is None:
+            HUB.violation("C17", "unknown-alias-accepted", f"alias for non-existing module {unknown} was not rejected", w)
+        elif not any(u in str(exc) for u in unknown):
+            HUB.violation("C17", "unknown-alias-error-does-not-name-module", f"error {type(exc).__name__}: {exc} does not name {unknown}", w)
+        elif calls:
+            HUB.violation("C17", "drawn-despite-unknown-alias", "drawing backend was called although an aliased module does not exist", w)
+        return
+    if exc is not None:
+        HUB.violation("C17", f"visualize-raises-{type(exc).__name__}", f"visualize raised {exc}", w)
+        return
+    if len(calls) != 1:
+        HUB.violation("C17", "backend-call-count", f"drawing backend called {len(calls)} times", w)
+        return
+    HUB.acc.count("c17_judged")
+    kw = calls[0]["kwargs"]
+    if calls[0]["nodes"] != nodes:
+        HUB.violation("C17", "wrong-graph-drawn", "graph handed to the backend has other nodes than the architecture", w)
+    if aliases is not None:
+        labels = kw.get("labels")
+        if "aliases" in kw:
+            HUB.violation("C17", "aliases-passed-to-backend", "'aliases' was handed to the drawing backend", w)
+        if not isinstance(labels, dict) or set(labels) != set(nodes):
+            HUB.violation("C17", "labels-do-not-cover-modules", "labels are not given for exactly the modules of the architecture", dict(w, labels=labels if isinstance(labels, dict) else repr(labels)))
+        else:
+            wrong = {m: (labels[m], r_label(m, aliases)) for m in nodes if labels[m] != r_label(m, aliases)}
+            if wrong:
+                m = sorted(wrong)[0]
+                from .refmodel.names import is_ancestor
+
+                sibling = any(m.startswith(a) and not (m == a or is_ancestor(a, m)) for a in aliases)
+                HUB.violation("C17", "label-startswith" if sibling else "label-wrong", f"label of {m} is {wrong[m][0]!r}, expected {wrong[m][1]!r}", dict(w, wrong={k: list(v) for k, v in wrong.items()}))
+            if any(a != m and m.startswith(a) and not is_ancestor_(a, m) for a in aliases for m in nodes):
+                HUB.acc.count("c17_prefix_sibling_alias_cases")
+    elif "labels" in kw and "labels" not in given:
+        HUB.violation("C17", "labels-invented", "labels handed to the backend although no aliases were given", w)
+    if "spacing" in given:
+        HUB.acc.count("c17_spacing_cases")
+        if "spacing" in kw:
+            HUB.violation("C17", "spacing-passed-to-backend", "'spacing' was handed to the drawing backend", w)
+        pos = kw.get("pos")
+        if not isinstance(pos, dict) or set(pos) != set(nodes):
+            HUB.violation("C17", "spacing-not-turned-into-pos", "'spacing' was not turned into a position per module", w)
+    for k, v in given.items():
+        if k in ("spacing", "aliases"):
+            continue
+        HUB.acc.count("c17_passthrough_kwargs")
+        if k not in kw or kw[k] is not v and kw[k] != v:
+            HUB.violation("C17", "kwarg-not-passed-through", f"drawing option {k!r} was dropped or altered", w)
+    for k in kw:
+        if k not in given and k not in ("labels", "pos"):
+            HUB.violation("C17", "kwarg-invented", f"drawing option {k!r} was invented", w)
+
+
+def is_ancestor_(a, m):
+    from .refmodel.names import is_ancestor
+
+    return is_ancestor(a, m)
+
+
+# ---------------------------------------------------------------------------------
 # install
 # ---------------------------------------------------------------------------------
 
@@ -502,3 +642,4 @@ def install(hub) -> None:
     _wrap_layer_rule_assert()
     _wrap_puml_parse()
     _wrap_diagram_rule()
+    _wrap_draw()
